@@ -51,6 +51,7 @@ def make_db(name):
                              LatexArgumentSpec('[')]),
             MacroSpec('mp', [LatexArgumentSpec('{'),       # second mandatory argument must follow WITHOUT whitespace
                              LatexArgumentSpec(LatexStandardArgumentParser('{', allow_pre_space=False))]),
+            MacroSpec('mk', ['t~', '{']),     # a token marker that is also a specials sequence of this context
             MacroSpec(',', ['r()']),          # required delimited argument after a NON-alphabetic macro name:
                                               # whitespace in front of the argument is not swallowed by the macro token
         ], environments=[
@@ -188,6 +189,38 @@ def make_db(name):
     db.freeze()
     _ctx_cache[name] = db
     return db
+
+
+_baseline = []
+
+
+def _tup(x):
+    if isinstance(x, list):
+        return tuple(_tup(y) for y in x)
+    return x
+
+
+def baseline_default_cx():
+    """the RECORDED declarations of the default parser context (baseline_walkerctx.json), in the shape of
+    ctxwire.decode_db"""
+    if not _baseline:
+        import json, os
+        cx = json.load(open(os.path.join(os.path.dirname(os.path.dirname(os.path.abspath(__file__))), 'baseline_walkerctx.json')))['cx']
+
+        def spec(sp):
+            if sp is None:
+                return None
+            sp = dict(sp)
+            a = sp['args']
+            if a[0] == 'std':
+                sp['args'] = ('std', [dict(x, kind=_tup(x['kind'])) for x in a[1]])
+            else:
+                sp['args'] = _tup(a)
+            return sp
+        _baseline.append({'macros': [(n, spec(sp)) for n, sp in cx['macros']], 'envs': [(n, spec(sp)) for n, sp in cx['envs']],
+                          'specials': [(n, spec(sp)) for n, sp in cx['specials']],
+                          'unk_macro': spec(cx['unk_macro']), 'unk_env': spec(cx['unk_env'])})
+    return _baseline[0]
 
 
 _wire_cache = {}
